@@ -140,7 +140,8 @@ func (e *composerEnv) keyJSON(k CEnt) map[string]interface{} {
 			},
 		}
 	default:
-		pk := e.pool.Get("p256", fmt.Sprintf("dock%dv%d", k.ID, k.Ver))
+		// (the curve goes with the version: P-521, P-384, P-256, ...)
+		pk := e.pool.Get([]string{"p256", "p384", "p521"}[(3000-k.Ver)%3], fmt.Sprintf("dock%dv%d", k.ID, k.Ver))
 		m = map[string]interface{}{
 			"id":       entID("k", k.ID),
 			"type":     "JsonWebKey2020",
